@@ -98,6 +98,24 @@ CLAIMS = {
              "omitted for syntax / validation failures, data null + errors for request errors, one error per failed position, for executions with "
              "failures everywhere, every prefix of request texts, invalid documents and variable errors.",
         note=BND + "Known findings: misspelt 'columne' key and IndexError when rendering the len+1 position (both pinned by tests)."),
+    "C14": dict(
+        category="other", engine="rtc",
+        technique="run-time data-structure invariants (closed registry, source frame, removed unreachable, untargeted preserved) as postconditions of schema operations over operation sequences",
+        text="Bounded: clone, 11 visibility predicates, camel-casing and 9 extension documents applied to a source schema carrying resolvers, default / "
+             "subscription resolvers, type resolvers and python names - each alone, in sequences of 2-3 on the same source, and chained. After every "
+             "operation: every reference in the result is the object registered under its name (fields, arguments, interfaces, members, roots), the "
+             "source's deep snapshot is unchanged and the source is still closed, hidden elements are unreachable through the registry and "
+             "introspection, everything the operation does not target is preserved, and the result validates and prints.",
+        note=BND + "Trusted: vf/ref_sdl.closed / snapshot. The heal loop (fix_type_references <-> _replace_types_and_directives) mutates object graphs through "
+             "visitors and is outside the VC generator's subset."),
+    "C15": dict(
+        category="other", engine="rtc",
+        technique="run-time contract: introspection result == schema objects member by member; defaultValue parses and coerces back to the declared default",
+        text="Bounded: SDL-built and code-built schemas (defaults of every kind, deprecations, custom directives) x the standard introspection query "
+             "with and without descriptions, includeDeprecated true / false / default and the disable switch: kinds, names, descriptions, wrapped type "
+             "chains, fields, arguments, input fields, enum values, interfaces, possible types, directives and locations, roots and deprecations equal "
+             "the schema; every defaultValue is GraphQL text that coerces back to the declared default.",
+        note=BND + "Known finding: string defaults nested in lists / input objects are not escaped (partially repaired by a fix: commit; the rest is pinned by tests)."),
     "C16": dict(
         category="other", engine="rtc",
         technique="run-time hook / middleware trace contracts over request outcomes x runtimes x completion orders",
